@@ -23,7 +23,7 @@ ModelAgrees(ln) == Has(ln, "model_share") => ln.model_share = ln.real_share
 VirtualRename(ln) == ln.name = "op |" /\ Has(ln, "inner_clash") /\ ln.inner_clash
 PlainPureT(ln) == IF VirtualRename(ln) THEN Untouched(ln.recv) /\ ln.args_same_content ELSE PlainPure(ln)
 ASSUME CallClauses([recv |-> [before |-> 0, after |-> 0], args |-> <<>>, sharers |-> <<>>, arrays |-> <<>>, perm |-> <<>>,
-                    hasinpl |-> FALSE, docself |-> FALSE])[1][1] = "PlainPure"
+                    hasinpl |-> FALSE, docself |-> FALSE, plain |-> [exc |-> "x"]])[1][1] = "PlainPure"
 
 \* the result of a plain spelling holds none of the tensor *objects* of its receiver / arguments (it may share
 \* their arrays); the virtual combination `|` documents that it does.  Not demanded by the statement: a note.
